@@ -50,6 +50,7 @@ namespace occa {
     template <>
     occaType newOccaType(const occa::primitive &value) {
       switch(value.type) {
+        case occa::primitiveType::bool_   : return newOccaType<bool>(value);
         case occa::primitiveType::int8_   : return newOccaType<int8_t>(value);
         case occa::primitiveType::uint8_  : return newOccaType<uint8_t>(value);
         case occa::primitiveType::int16_  : return newOccaType<int16_t>(value);
